@@ -19,7 +19,12 @@ impl<T: Qcow2IoOps> Qcow2Dev<T> {
     pub(crate) async fn call_write(&self, offset: u64, buf: &[u8]) -> Qcow2Result<()> {
         log::trace!("write_from off {:x} len {}", offset, buf.len());
         self.unsynced.store(true, std::sync::atomic::Ordering::Relaxed);
-        self.file.write_from(offset, buf).await
+        let res = self.file.write_from(offset, buf).await;
+        // and again now that it has completed: an fsync issued by another
+        // task while this write was in flight cleared the mark, but does not
+        // cover the write
+        self.unsynced.store(true, std::sync::atomic::Ordering::Relaxed);
+        res
     }
 
     #[inline]
@@ -32,6 +37,8 @@ impl<T: Qcow2IoOps> Qcow2Dev<T> {
         log::trace!("fallocate off {:x} len {}", offset, len);
         self.unsynced.store(true, std::sync::atomic::Ordering::Relaxed);
         let res = self.file.fallocate(offset, len, flags).await;
+        // see call_write(): not covered by an fsync issued in between
+        self.unsynced.store(true, std::sync::atomic::Ordering::Relaxed);
         match res {
             Err(_) => {
                 log::trace!("discard fallback off {:x} len {}", offset, len);
